@@ -397,12 +397,15 @@ snarf_shift(const char *spec)
 	int b = 0, d = 0;
 	char *on = NULL;
 	long int tmp;
+	bool negz;
 
 more:
 	tmp = strtol(spec, &on, 10);
 	if (UNLIKELY(on == NULL)) {
 		return 0;
 	}
+	/* strtol() drops the sign of -0 */
+	negz = !tmp && *spec == '-';
 	spec = on;
 	switch (*spec++) {
 	case 'b':
@@ -421,6 +424,7 @@ more:
 			goto again;
 		case '-':
 			sem |= (tmp < 0) << 1U;
+			negz |= !tmp;
 			goto again;
 		case ',':
 			b += tmp;
@@ -428,7 +432,7 @@ more:
 		default:
 			return 0;
 		}
-		sem |= b < 0;
+		sem |= b < 0 || !b && negz;
 		sem |= !b << 1U;
 		b = b >= 0 ? b : -b;
 		break;
